@@ -224,3 +224,66 @@ Definition zernike_coordinates (mask : arr QS) : result coords :=
         (* theta = angle(-rr*e + 1j*cc*e), e = exp(i pi/2) = i:  angle(-cc - i rr) *)
         (fun i j => (- ccm j)%Qc)
         (fun i j => (- rr i)%Qc)).
+
+(* ------------------------------------------------------------------------------------------ *)
+(** * The public entry point zernike(mask, index, normalize, rho=None, theta=None): argument
+      branches and the default-coordinate path, evaluated exactly *)
+
+(* which of rho, theta the caller passed *)
+Inductive zargs := ArgNone | ArgRhoOnly | ArgThetaOnly | ArgBoth.
+(*  if rho is None: rho, theta = zernike_coordinates(mask)      (a theta passed alone is ignored)
+    else: if theta is None: raise ValueError                     (before the index is looked at) *)
+Definition zernike_branch (a : zargs) : result bool :=      (* Ok true = default coordinates *)
+  match a with ArgNone | ArgThetaOnly => Ok true | ArgRhoOnly => Err ValueError | ArgBoth => Ok false end.
+
+(* (x + i y)^k *)
+Fixpoint cpowq (x y : Qc) (k : nat) : Qc * Qc :=
+  match k with
+  | O => (1%Qc, 0%Qc)
+  | Datatypes.S k' => let w := cpowq x y k' in ((x * fst w - y * snd w)%Qc, (x * snd w + y * fst w)%Qc)
+  end.
+(* R_n^a(rho) / rho^a as a polynomial in t = rho^2: the code's coefficients on t^((n-a)/2 - k) *)
+Definition radial_reduced (a n : Z) (t : Qc) : Qc :=
+  fold_left (fun acc k => (acc + rcoef a n k * qpow t ((n - a) / 2 - k))%Qc) (zrange ((n - a) / 2 + 1)) 0%Qc.
+(* rho^|m| cos(m theta) resp. rho^|m| sin(m theta) (m < 0) times rmax^|m|, from the direction vector
+   (x, y) = r (cos theta, sin theta) *)
+Definition az_cart (m : Z) (x y : Qc) : Qc :=
+  let w := cpowq x y (Z.to_nat (Z.abs m)) in
+  if m =? 0 then 1%Qc else if 0 <? m then fst w else (- snd w)%Qc.
+(* one sample of the default-coordinate mode, without the normalisation constant and without the
+   factor 1/sqrt(rmax2)^(|m| mod 2) (both irrational; the caller of the model applies them) *)
+Definition zernike_default_pt (m n : Z) (c : coords) (i j : Z) (inside : bool) : Qc :=
+  if inside
+  then (radial_reduced (Z.abs m) n (c_rho2 c i j) * az_cart m (c_dirx c i j) (c_diry c i j)
+        / qpow (c_rmax2 c) (Z.abs m / 2))%Qc
+  else 0%Qc.
+
+Record default_mode := mkDefaultMode {
+  dm_norm2 : Z;               (* square of the normalisation constant *)
+  dm_odd : bool;              (* true: the values are still to be divided by sqrt(dm_rmax2) *)
+  dm_rmax2 : Qc;
+  dm_val : Z -> Z -> Qc
+}.
+(* zernike(mask, j, normalize) with default coordinates: coordinates first, then the index *)
+Definition zernike_default (mask : arr QS) (j : Z) (normalize : bool) : result default_mode :=
+  rbind (zernike_coordinates mask) (fun c =>
+  rbind (noll_exact j) (fun mn =>
+    Ok (mkDefaultMode (norm2 (fst mn) (snd mn) normalize) (Z.odd (fst mn)) (c_rmax2 c)
+          (fun i k => zernike_default_pt (fst mn) (snd mn) c i k (mask_bool (get mask i k)))))).
+
+(* zernike_basis(mask, modes, normalize) with default coordinates: one zernike call per mode, in
+   order; the first failing mode aborts the call *)
+Fixpoint zernike_basis_default (mask : arr QS) (modes : list Z) (normalize : bool) : result (list default_mode) :=
+  match modes with
+  | [] => Ok []
+  | j :: rest =>
+      rbind (zernike_default mask j normalize) (fun d =>
+      rbind (zernike_basis_default mask rest normalize) (fun ds => Ok (d :: ds)))
+  end.
+
+(* with caller-supplied coordinates the only refusal left is an index below 1 (the first one met) *)
+Fixpoint modes_valid (modes : list Z) : result unit :=
+  match modes with
+  | [] => Ok tt
+  | j :: rest => rbind (noll_exact j) (fun _ => modes_valid rest)
+  end.
